@@ -14,7 +14,7 @@ RULE = ("(a) edge lists produced by the fast and custom generators on Hypothesis
         "distinct = distinct canonical JSON")
 ASSUMPTIONS = ["for a pair occurring several times in the edge list the statement fixes no winner; nothing is asserted "
                "about which row's name/id the edge carries, only that it is one of them"]
-BUDGET = {"quick": (16, 400), "thorough": (16, 5000)}
+BUDGET = {"quick": (16, 400), "thorough": (16, 15000)}
 
 
 @st.composite
